@@ -24,9 +24,10 @@ METRIC_OPS = ["derivative", "integrate", "average", "cumint"]
 
 
 # ------------------------------------------------------------ user ufuncs
-def make_stencil(weights_per_axis):
+def make_stencil(weights_per_axis, nout=1):
     """function applying an integer-weight stencil over the trailing len(w)
-    dims; shrinks each by len(w_axis)-1."""
+    dims; shrinks each by len(w_axis)-1.  With nout=2 it returns a pair
+    (the stencil and an affine image of it)."""
 
     def stencil(*arrs):
         a = arrs[0]
@@ -44,10 +45,14 @@ def make_stencil(weights_per_axis):
                 term = a[tuple(sl)] * float(wi)
                 acc = term if acc is None else acc + term
             a = acc
+        if nout == 2:
+            return a, a * 3.0 + 1.0
         return a
 
     # (no "-" in the name: dask.array.apply_gufunc splits task names on "-")
     stencil.__name__ = "stencil_" + "_".join("".join(str(x).replace("-", "m") for x in w) for w in weights_per_axis)
+    if nout == 2:
+        stencil.__name__ += "_pair"
     return stencil
 
 
@@ -386,7 +391,9 @@ def gen_ufunc_case(rng, gs, spec, tier):
         spec["input2"] = inputs2
     in_arg = ",".join(f"{dummy[a]}:{frompos[a]}" for a in uaxes)
     out_arg = ",".join(f"{dummy[a]}:{topos[a]}" for a in uaxes)
-    signature = ",".join([f"({in_arg})"] * nin) + f"->({out_arg})"
+    # a ufunc may return several arrays (here: two at the same positions)
+    nout = 2 if rng.random() < 0.12 else 1
+    signature = ",".join([f"({in_arg})"] * nin) + "->" + ",".join([f"({out_arg})"] * nout)
     sizes = worlds.dim_sizes(gs)
     spec["chunks"] = gen_chunks(rng, inp["dims"], sizes)
     if inputs2 is not None:
@@ -415,6 +422,8 @@ def gen_ufunc_case(rng, gs, spec, tier):
     via = rng.choice(["apply", "decorator"])
     spec["op"] = {"name": "ufunc", "via": via, "weights": weights, "kw": kw, "nin": nin,
                   "frompos": frompos, "topos": topos}
+    if nout == 2:
+        spec["op"]["nout"] = 2
     if inputs2 is not None and rng.random() < 0.4:
         # either argument may be the one with fewer dimensions
         spec["input"], spec["input2"] = spec["input2"], spec["input"]
@@ -612,7 +621,7 @@ def call_op(grid, op, da, da2=None, vector=None, eager=False):
         kw.pop("map_overlap", None)
     if name == "ufunc":
         weights = op["weights"]
-        func = make_stencil(weights)
+        func = make_stencil(weights, op.get("nout", 1))
         args = [da] + ([da2] if op.get("nin", 1) == 2 else [])
         if vector:
             args = [{vector["axis"]: da}]
@@ -851,6 +860,8 @@ def features(spec):
         chunks = spec.get("chunks") or {}
         chunks2 = spec.get("chunks2")
         sub = []
+        if op.get("nout", 1) > 1:
+            sub.append("several-outputs")
         dummy = {f"A{i}": a for i, a in enumerate(op["frompos"])}
         for dn, (l, u) in (kw.get("boundary_width") or {}).items():
             a = dummy[dn]
